@@ -1,7 +1,399 @@
 package main
 
-import "sort"
+import (
+	"crypto/sha256"
+	"encoding/json"
+	"flag"
+	"fmt"
+	"os"
+	"os/exec"
+	"path/filepath"
+	"runtime"
+	"sort"
+	"strings"
+	"time"
+)
 
 func sortStrings(s []string) { sort.Strings(s) }
 
-func cmdCheck(args []string) int { return 2 }
+type nativeCase struct {
+	Harness string                 `json:"harness"`
+	Inputs  map[string]interface{} `json:"inputs"`
+	Params  map[string]int         `json:"params"`
+	Known   map[string]bool        `json:"known"`
+}
+
+type nativeAssert struct {
+	Msg string `json:"msg"`
+	OK  bool   `json:"ok"`
+}
+type nativeResult struct {
+	Harness string         `json:"harness"`
+	Outcome string         `json:"outcome"`
+	Panic   string         `json:"panic"`
+	Asserts []nativeAssert `json:"asserts"`
+	Notes   []string       `json:"notes"`
+	Done    bool           `json:"done"`
+}
+
+func goEnv() []string {
+	return append(os.Environ(), "GOFLAGS=-mod=mod", "GOPROXY=off", "GOSUMDB=off", "GOTOOLCHAIN=local", "NO_COLOR=1")
+}
+
+// runNative executes cases for one package through `go test -overlay` against the real code and the real OS.
+func runNative(repoDir, verDir, pkg string, cases []nativeCase) ([]nativeResult, error) {
+	tmp, err := os.MkdirTemp("", "vpnative")
+	if err != nil {
+		return nil, err
+	}
+	defer os.RemoveAll(tmp)
+	ov, err := overlayFor(repoDir, verDir, true)
+	if err != nil {
+		return nil, err
+	}
+	repl := map[string]string{}
+	i := 0
+	for virt, content := range ov {
+		real := filepath.Join(tmp, fmt.Sprintf("ov%d_%s", i, filepath.Base(virt)))
+		i++
+		if err := os.WriteFile(real, content, 0o644); err != nil {
+			return nil, err
+		}
+		repl[virt] = real
+	}
+	pkgName := filepath.Base(pkg)
+	testSrc := fmt.Sprintf("package %s\n\nimport (\n\t\"testing\"\n\t\"%s/internal/zzvp\"\n)\n\nfunc TestVPReplay(t *testing.T) { zzvp.NativeMain(t, vpHarnesses) }\n", pkgName, repoMod)
+	testReal := filepath.Join(tmp, "zz_replay_test.go")
+	os.WriteFile(testReal, []byte(testSrc), 0o644)
+	repl[filepath.Join(repoDir, pkg, "zz_replay_test.go")] = testReal
+	ovJSON, _ := json.Marshal(map[string]interface{}{"Replace": repl})
+	ovPath := filepath.Join(tmp, "overlay.json")
+	os.WriteFile(ovPath, ovJSON, 0o644)
+	casesPath := filepath.Join(tmp, "cases.json")
+	cb, _ := json.Marshal(cases)
+	os.WriteFile(casesPath, cb, 0o644)
+	outPath := filepath.Join(tmp, "out.json")
+	env := append(goEnv(), "VP_CASES="+casesPath, "VP_OUT="+outPath)
+	if pkg == "cmd" {
+		goit := filepath.Join(tmp, "goit")
+		b := exec.Command("go", "build", "-o", goit, ".")
+		b.Dir = repoDir
+		b.Env = goEnv()
+		if out, err := b.CombinedOutput(); err != nil {
+			return nil, fmt.Errorf("building goit: %v\n%s", err, out)
+		}
+		env = append(env, "VP_GOIT="+goit)
+	}
+	c := exec.Command("go", "test", "-vet=off", "-count=1", "-timeout", "20m", "-overlay", ovPath, "-run", "^TestVPReplay$", "./"+pkg)
+	c.Dir = repoDir
+	c.Env = env
+	out, err := c.CombinedOutput()
+	rb, rerr := os.ReadFile(outPath)
+	if rerr != nil {
+		return nil, fmt.Errorf("native run failed: %v\n%s", err, out)
+	}
+	var res []nativeResult
+	if err := json.Unmarshal(rb, &res); err != nil {
+		return nil, err
+	}
+	return res, nil
+}
+
+// ---------------------------------------------------------------------------
+
+type KnownFinding struct {
+	Property string                 `json:"property"`
+	ID       string                 `json:"id"`
+	Harness  string                 `json:"harness"` // pkg:Func
+	What     string                 `json:"what"`
+	Assert   string                 `json:"assert"` // message of the assertion that fails ("panic" for crashes)
+	Inputs   map[string]interface{} `json:"inputs"`
+	Params   map[string]int         `json:"params"`
+}
+
+type KnownFile struct {
+	Findings []KnownFinding `json:"known_findings"`
+	Fixed    []string       `json:"fixed"`
+}
+
+func loadKnown(verDir string) KnownFile {
+	var k KnownFile
+	b, err := os.ReadFile(filepath.Join(verDir, "known_findings.json"))
+	if err == nil {
+		json.Unmarshal(b, &k)
+	}
+	return k
+}
+
+type Evidence struct {
+	PropertyID  string                 `json:"property_id"`
+	Tier        string                 `json:"tier"`
+	Seed        int                    `json:"seed"`
+	Level       string                 `json:"level"`
+	Coverage    map[string]interface{} `json:"coverage"`
+	Assumptions []string               `json:"assumptions"`
+	WallS       float64                `json:"wall_s"`
+	Violations  int                    `json:"violations"`
+}
+
+func cmdCheck(args []string) int {
+	fs := flag.NewFlagSet("check", flag.ExitOnError)
+	prop := fs.String("property", "", "property id")
+	tier := fs.String("tier", "quick", "quick|thorough")
+	workers := fs.Int("j", runtime.NumCPU(), "workers")
+	repoDir := fs.String("repo", "/repo", "repository")
+	verDir := fs.String("verif", "/verif", "verif dir")
+	noNative := fs.Bool("no-native", false, "skip native differential validation (development only)")
+	only := fs.String("only", "", "run only harnesses whose name contains this (development only; evidence not written)")
+	fs.Parse(args)
+	if t := os.Getenv("VERIF_TIER"); t != "" && !isFlagSet(fs, "tier") {
+		*tier = t
+	}
+	seed := 0
+	fmt.Sscanf(os.Getenv("VERIF_SEED"), "%d", &seed)
+	t0 := time.Now()
+	pd, ok := registry[*prop]
+	if !ok {
+		fmt.Printf("no check registered for %s\n", *prop)
+		return 2
+	}
+	ld, err := Load(*repoDir, *verDir)
+	if err != nil {
+		fmt.Println("LOAD ERROR:", err)
+		return 2
+	}
+	loadS := time.Since(t0).Seconds()
+	known := loadKnown(*verDir)
+	cfg := defaultCfg(*tier)
+
+	// 1. known findings: replay each listed witness on the real build; only those that still fail exclude their region
+	knownHit := []string{}
+	for _, kf := range known.Findings {
+		if kf.Property != *prop {
+			continue
+		}
+		parts := strings.SplitN(kf.Harness, ":", 2)
+		res, err := runNative(*repoDir, *verDir, parts[0], []nativeCase{{Harness: parts[1], Inputs: kf.Inputs, Params: kf.Params, Known: map[string]bool{}}})
+		still := false
+		if err == nil && len(res) == 1 {
+			if res[0].Outcome == "panic" && kf.Assert == "panic" {
+				still = true
+			}
+			for _, a := range res[0].Asserts {
+				if !a.OK && a.Msg == kf.Assert {
+					still = true
+				}
+			}
+		}
+		if still {
+			fmt.Printf("KNOWN-FINDING: property=%s %s: %s\n", *prop, kf.ID, kf.What)
+			cfg.Known[kf.ID] = true
+			knownHit = append(knownHit, kf.ID)
+		} else {
+			fmt.Printf("note: listed finding %s no longer reproduces; its region is checked like any other\n", kf.ID)
+		}
+	}
+
+	// 2. symbolic exploration of every harness of the property
+	var results []*HarnessResult
+	totalBudget := pd.QuickBudget
+	if *tier == "thorough" {
+		totalBudget = pd.ThoroughBudget
+	}
+	for _, h := range pd.Harnesses {
+		if *only != "" && !strings.Contains(h.Func, *only) {
+			continue
+		}
+		spec := HarnessSpec{Pkg: h.Pkg, Func: h.Func, Params: map[string]int{}}
+		for k, v := range h.Quick {
+			spec.Params[k] = v
+		}
+		if *tier == "thorough" {
+			for k, v := range h.Thorough {
+				spec.Params[k] = v
+			}
+		}
+		budget := time.Duration(float64(totalBudget) * h.Share)
+		r := RunHarness(ld, spec, cfg, *workers, budget)
+		printResult(r)
+		results = append(results, r)
+	}
+
+	// 3. confirm every counterexample against the real build before reporting it
+	exit := 0
+	nviol := 0
+	spurious := 0
+	var violSamples []interface{}
+	replayDir := filepath.Join(*verDir, "replays")
+	for _, r := range results {
+		for _, v := range r.Violations {
+			nc := nativeCase{Harness: r.Spec.Func, Inputs: v.Inputs, Params: r.Spec.Params, Known: cfg.Known}
+			nres, err := runNative(*repoDir, *verDir, r.Spec.Pkg, []nativeCase{nc})
+			confirmed := false
+			detail := ""
+			if err != nil {
+				detail = "native replay could not run: " + err.Error()
+			} else if len(nres) == 1 {
+				if strings.HasPrefix(v.Msg, "panic:") && nres[0].Outcome == "panic" {
+					confirmed = true
+					detail = nres[0].Panic
+				}
+				for _, a := range nres[0].Asserts {
+					if !a.OK && a.Msg == v.Msg {
+						confirmed = true
+					}
+				}
+				if !confirmed {
+					detail = fmt.Sprintf("native outcome=%s asserts=%v", nres[0].Outcome, nres[0].Asserts)
+				}
+			}
+			if confirmed {
+				os.MkdirAll(replayDir, 0o755)
+				body, _ := json.MarshalIndent(map[string]interface{}{"property": *prop, "harness": r.Spec.Pkg + ":" + r.Spec.Func, "assert": v.Msg,
+					"inputs": v.Inputs, "params": r.Spec.Params, "known": cfg.Known, "native": detail, "notes": v.Notes}, "", " ")
+				dig := fmt.Sprintf("%x", sha256.Sum256(body))[:12]
+				path := filepath.Join(replayDir, fmt.Sprintf("%s-%s.json", *prop, dig))
+				os.WriteFile(path, body, 0o644)
+				fmt.Printf("VIOLATION property=%s replay=%s\n", *prop, path)
+				fmt.Printf("  harness=%s assert=%q inputs=%s\n", r.Spec.Name(), v.Msg, showInputs(v.Inputs))
+				exit = 1
+				nviol++
+				violSamples = append(violSamples, map[string]interface{}{"harness": r.Spec.Name(), "assert": v.Msg, "inputs": showInputs(v.Inputs)})
+			} else {
+				spurious++
+				fmt.Printf("SPURIOUS (model artefact, not reported): harness=%s assert=%q inputs=%s :: %s\n", r.Spec.Name(), v.Msg, showInputs(v.Inputs), detail)
+			}
+		}
+	}
+
+	// 4. differential validation of the executor: sampled completed paths re-run natively, assertion by assertion
+	validated, mismatches := 0, 0
+	var mismatchSamples []string
+	if !*noNative {
+		byPkg := map[string][]nativeCase{}
+		expect := map[string][]pathModel{}
+		for _, r := range results {
+			n := 0
+			for _, pm := range r.PathModels {
+				if n >= 12 {
+					break
+				}
+				n++
+				byPkg[r.Spec.Pkg] = append(byPkg[r.Spec.Pkg], nativeCase{Harness: r.Spec.Func, Inputs: pm.Inputs, Params: r.Spec.Params, Known: cfg.Known})
+				expect[r.Spec.Pkg] = append(expect[r.Spec.Pkg], pm)
+			}
+		}
+		for pkg, cases := range byPkg {
+			nres, err := runNative(*repoDir, *verDir, pkg, cases)
+			if err != nil {
+				fmt.Println("note: native differential run failed:", err)
+				continue
+			}
+			for i, nr := range nres {
+				pm := expect[pkg][i]
+				okc := nr.Outcome == "ok" && len(nr.Asserts) == len(pm.Asserts)
+				if okc {
+					for j := range pm.Asserts {
+						if nr.Asserts[j].Msg != pm.Asserts[j] || nr.Asserts[j].OK != pm.Results[j] {
+							okc = false
+						}
+					}
+				}
+				if okc {
+					validated++
+				} else {
+					mismatches++
+					if len(mismatchSamples) < 5 {
+						mismatchSamples = append(mismatchSamples, fmt.Sprintf("%s inputs=%s engine=%v/%v native=%s %v %s", cases[i].Harness, showInputs(cases[i].Inputs), pm.Asserts, pm.Results, nr.Outcome, nr.Asserts, nr.Panic))
+					}
+				}
+			}
+		}
+		for _, m := range mismatchSamples {
+			fmt.Println("ENGINE-MISMATCH:", m)
+		}
+	}
+
+	// 5. evidence
+	var paths, obligations, discharged, undis, unproved, unwind, engErr, queries, reached, pruned int
+	var steps int64
+	var solverS float64
+	funcs := map[string]int64{}
+	var samples []interface{}
+	var harnessRows []interface{}
+	complete := true
+	for _, r := range results {
+		s := r.Stats
+		paths += s.Paths
+		pruned += s.Pruned
+		steps += s.Steps
+		obligations += s.Obligations
+		discharged += s.Discharged
+		undis += s.Undischarged
+		unproved += s.Unproved
+		unwind += s.UnwindFail
+		engErr += s.EngineErrors
+		queries += r.Queries
+		reached += s.ReachedEnd
+		solverS += r.SolverTime
+		for k, v := range s.Funcs {
+			funcs[k] += v
+		}
+		if !r.Complete || s.Undischarged > 0 || s.UnwindFail > 0 || s.EngineErrors > 0 || s.Unproved > 0 {
+			complete = false
+		}
+		for i, ps := range s.PathSamples {
+			if i < 2 {
+				samples = append(samples, map[string]interface{}{"harness": r.Spec.Name(), "inputs": showInputs(ps.Inputs), "outcome": ps.Outcome, "asserts": ps.Asserts, "pc_conjuncts": ps.PCSize})
+			}
+		}
+		harnessRows = append(harnessRows, map[string]interface{}{"harness": r.Spec.Name(), "bounds": r.Spec.Params, "paths": s.Paths, "pruned_infeasible": s.Pruned,
+			"reached_final_assertion": s.ReachedEnd, "obligations": s.Obligations, "discharged": s.Discharged, "undischarged": s.Undischarged,
+			"unwinding_failures": s.UnwindFail, "engine_errors": s.EngineErrors, "error_samples": s.ErrSamples, "queries": r.Queries, "solver_s": round1(r.SolverTime), "wall_s": round1(r.Wall),
+			"complete_within_bounds": r.Complete, "asserts": s.AssertsByMsg})
+	}
+	samples = append(samples, violSamples...)
+	if len(samples) == 0 {
+		samples = append(samples, "no path completed")
+	}
+	if paths == 0 {
+		paths = 0
+	}
+	ev := Evidence{PropertyID: *prop, Tier: *tier, Seed: seed, Level: "model_checking", WallS: round1(time.Since(t0).Seconds()), Violations: nviol}
+	ev.Coverage = map[string]interface{}{
+		"states": paths, "transitions": steps, "traces_validated_against_impl": validated, "samples": samples,
+		"obligations": obligations, "discharged": discharged, "undischarged": undis, "unproved_paths": unproved,
+		"unwinding_failures": unwind, "engine_errors": engErr, "spurious_models": spurious, "native_mismatches": mismatches, "mismatch_samples": mismatchSamples,
+		"solver_queries": queries, "solver_time_s": round1(solverS), "solver": "z3 4.8.12 (-in, QF_BV terms over push/pop)",
+		"paths_reaching_final_assertion": reached, "paths_pruned_infeasible": pruned,
+		"functions_encoded": topFuncs(funcs, 0), "harnesses": harnessRows, "known_findings_hit": knownHit,
+		"exhaustive":  complete && nviol == 0,
+		"explanation": "states = feasible symbolic paths completed; transitions = SSA instructions of /repo interpreted; every obligation is one (check-sat) of pc ∧ ¬assert",
+		"repo_head":   ld.gitHead, "repo_diff_sha256_16": ld.diffSum, "load_s": round1(loadS),
+	}
+	ev.Assumptions = pd.Assumptions
+	if *only == "" {
+		os.MkdirAll(filepath.Join(*verDir, "evidence"), 0o755)
+		b, _ := json.MarshalIndent(ev, "", " ")
+		os.WriteFile(filepath.Join(*verDir, "evidence", *prop+".json"), b, 0o644)
+	}
+	fmt.Printf("property %s tier=%s: paths=%d obligations=%d discharged=%d undischarged=%d violations=%d spurious=%d validated=%d mismatches=%d exhaustive=%v wall=%.1fs\n",
+		*prop, *tier, paths, obligations, discharged, undis, nviol, spurious, validated, mismatches, complete && nviol == 0, time.Since(t0).Seconds())
+	if engErr > 0 && paths == engErr {
+		fmt.Println("TOOL ERROR: every path ended in an engine error")
+		return 2
+	}
+	return exit
+}
+
+func round1(f float64) float64 { return float64(int(f*10+0.5)) / 10 }
+
+func isFlagSet(fs *flag.FlagSet, name string) bool {
+	set := false
+	fs.Visit(func(f *flag.Flag) {
+		if f.Name == name {
+			set = true
+		}
+	})
+	return set
+}
